@@ -101,6 +101,8 @@ pub const CUBE_PATTERNS: &[&str] = &[
     "||tracker.co.uk^", "||co.uk^", "||example.com/foo/bar", "||ads.net:", "||ads.net?", "||ads.", "||1.2.3.4^", "||1.2.3.4/ads",
     // non-ASCII letters inside rule tokens
     "/\u{6587}ads^", "/\u{e9}/bar", "bar\u{e9}^", "||ads.net/\u{6587}ads",
+    // percent-escapes next to rule tokens
+    "/foo%2Fbar", "%2Fbar", "ads%20foo",
     // hostname anchor with an empty host text (the parser keeps an empty hostname)
     "||*/foo/", "||/foo/bar", "||^foo^",
     // full regex and empty
@@ -161,12 +163,18 @@ pub const PATHS: &[&str] = &[
     "/ads.foo/",
     "/FOO/BAR",
     "/foo/bar/baz",
+    // a literal `*` next to a token (in a URL it is an ordinary character), percent-escapes next to tokens
+    "/*ads/foo",
+    "/foo*/bar",
+    "/foo%2Fbar",
+    "/ads%20foo/bar",
 ];
 
 /// Paths with non-ASCII characters next to rule tokens: letters (token characters) and punctuation
 /// (separators, on both the rule side and the request side of the token index).
 pub const PATHS_NONASCII: &[&str] = &[
     "/ads\u{2014}foo", "/bar\u{2014}x", "/x\u{b7}bar", "/\u{2014}foo\u{2014}", "/ads/foo/bar\u{b7}", "/\u{e9}/bar", "/bar\u{e9}", "/foo/bar\u{a0}", "/ads\u{ff0f}foo/bar", "/\u{6587}ads/foo", "/\u{6587}ads\u{2014}x", "/x\u{b7}\u{e9}/bar",
+    "/foo%2Fbar/\u{e9}", "/ads%20foo\u{2014}bar",
 ];
 
 pub const QUERIES: &[&str] = &["", "?x=1", "?utm=1&b=2"];
